@@ -193,3 +193,56 @@ def form_feed(src):
     return "\x0c\n" + src if not src.startswith("from __future__") else None
 
 CALL_LAYOUTS = {"trailing-comma": trailing_comma, "exploded": exploded_calls, "exploded-comments": exploded_calls_with_comments, "semicolon": semicolon_joined, "backslash": backslash_continued, "formfeed": form_feed}
+
+class _Hanging(cst.CSTTransformer):
+    """hanging indent: break after the first argument only -> `f(a,\\n    b, c)`; the last line carries the closing parenthesis"""
+    def __init__(self): self.depth = 0
+    def visit_Call(self, n): self.depth += 1
+    def leave_Call(self, o, u):
+        self.depth -= 1
+        if len(u.args) < 2 or self.depth > 0: return u
+        first = u.args[0].with_changes(comma=cst.Comma(whitespace_after=cst.ParenthesizedWhitespace(first_line=cst.TrailingWhitespace(newline=cst.Newline()), indent=True, last_line=cst.SimpleWhitespace("        "))))
+        return u.with_changes(args=[first, *u.args[1:]])
+def hanging_calls(src): return _try(src, _Hanging())
+CALL_LAYOUTS["hanging"] = hanging_calls
+
+def nonascii_prefix(src, text="vf_u = 'é✓'; "):
+    """put a non-ASCII string statement in front of every simple statement that contains a call (same physical line)"""
+    try: tree = ast.parse(src)
+    except SyntaxError: return None
+    lines = src.splitlines(keepends=True); done = 0
+    targets = []
+    for n in ast.walk(tree):
+        if isinstance(n, ast.stmt) and not hasattr(n, "body") and not isinstance(n, (ast.Import, ast.ImportFrom, ast.Global, ast.Nonlocal)) and any(isinstance(x, ast.Call) for x in ast.walk(n)):
+            targets.append((n.lineno, n.col_offset))
+    for ln, col in sorted(set(targets), reverse=True):
+        l = lines[ln - 1]
+        if l[:col].strip(): continue      # not the first statement on its line
+        lines[ln - 1] = l[:col] + text + l[col:]; done += 1
+    if not done: return None
+    out = "".join(lines)
+    try: compile(out, "<nonascii>", "exec")
+    except SyntaxError: return None
+    return out
+
+def nonascii_last_argument(src):
+    """append a keyword argument with a non-ASCII value to every outermost call that already has arguments (lands on the call's last line)"""
+    try: tree = ast.parse(src)
+    except SyntaxError: return None
+    lines = src.splitlines(keepends=True); starts = [0]
+    for l in lines: starts.append(starts[-1] + len(l))
+    def off(line, col): return starts[line - 1] + len(lines[line - 1].encode("utf-8")[:col].decode("utf-8", "ignore"))
+    edits = []
+    for n in ast.walk(tree):
+        if isinstance(n, ast.Call) and (n.args or n.keywords) and not any(k.arg is None for k in n.keywords):
+            close = off(n.end_lineno, n.end_col_offset) - 1
+            if src[close] != ")": continue
+            j = close - 1
+            while j >= 0 and src[j] in " \t\r\n": j -= 1
+            edits.append((j + 1, " vf_note='é✓'," if src[j] == "," else ", vf_note='é✓'"))
+    if not edits: return None
+    out = src
+    for pos, ins in sorted(edits, reverse=True): out = out[:pos] + ins + out[pos:]
+    try: compile(out, "<nonascii>", "exec")
+    except SyntaxError: return None
+    return out
